@@ -453,8 +453,18 @@ def groupRows {n : Nat} (st : Store) (init : Row n) (q : SelQ n) : List (Row n) 
   (evalBGP st init q.ts).flatMap fun a =>
     (subRows st init q.sub).filterMap fun s => if compat s a then some (merge s a) else none
 
+def Ex.vars {n : Nat} : Ex n → List (Fin n)
+  | .same a b => ptVars a ++ ptVars b
+  | .bound v => [v]
+  | .not e => e.vars
+  | .and a b => a.vars ++ b.vars
+  | .or a b => a.vars ++ b.vars
+
+/-- the columns of `SELECT *` (`translate`: `_findVars` over the WHERE clause): every variable written in
+    the group — patterns and filter expressions — and of a sub-select only what it projects -/
 def starVars {n : Nat} (q : SelQ n) : List (Fin n) :=
-  bgpVars q.ts ++ (match q.sub with | none => [] | some (pv, _) => pv)
+  bgpVars q.ts ++ (match q.filt with | none => [] | some e => e.vars)
+    ++ (match q.sub with | none => [] | some (pv, _) => pv)
 
 def finish {n : Nat} (q : SelQ n) (star : List (Fin n)) (rows : List (Row n)) : List (Row n) :=
   let rows := match q.filt with
